@@ -253,11 +253,11 @@ CLAIMED = {
                 "(C15_inverted_order_deadlocks). The tie: on every run the lock profile of each manager call and entry "
                 "(lock about to be taken, locks held) is observed on the implementation and must lie in the model's context "
                 "table; concurrent calls are run under forced interleavings of the lock scheduling points with a deadlock / "
-                "panic / poisoning verdict.",
+                "panic / poisoning verdict, including a tripped breaker whose rejected probe entry is parked inside its exit hook "
+                "while another thread replaces the rule (the scenario of fix 8f67545).",
         "design_ref": "DESIGN.md §6 C15",
         "note": "Partial: deadlock freedom is a theorem for the sixteen static locks of the rule managers and the node store "
-                "(reader/writer locks treated as exclusive); the per-breaker state mutex and the listener lock inside it are "
-                "outside the observed profile; absence of panics under concurrency is checked on the implementation under "
+                "plus the breakers' state mutexes as one lock (reader/writer locks treated as exclusive); absence of panics under concurrency is checked on the implementation under "
                 "forced schedules, not proved for all interleavings. Trusted: Coq kernel + VM, the harness scheduler with "
                 "time-out based blocked-thread detection, the placement of the scheduling points, try_lock as reader of held locks.",
         "technique": "Coq proof (lock-order theorem over all interleavings) + observed lock profiles checked against the model's context table + forced-schedule runs of the real managers",
@@ -327,13 +327,16 @@ CLAIMED = {
                 "line (C19_torn_tail); every complete line parses back to the item written (C19_lines_parse_back); on every "
                 "directory whose files are consecutive segments of one time-ordered sequence with exact indexes the search by "
                 "time returns exactly the items of the interval, in order (C19_find_by_time_exact); every write history produces "
-                "such a directory (C19_written_directory_is_good), hence C19_search_after_writes. Search results "
+                "such a directory (C19_written_directory_is_good), hence C19_search_after_writes; the line-limited search returns a "
+                "prefix in write order that is not cut short (C19_find_max_lines_prefix); with the last file torn at any byte of "
+                "its log and its index both searches return what the completely written part prescribes plus at most one item "
+                "read from the torn line (C19_search_by_time_after_crash, C19_search_max_lines_after_crash). Search results "
                 "(by time range and resource; from a time with a line limit), across roll-overs by size and date and after a "
                 "crash cut, are compared with the model on every run and judged by an executable predicate against the "
                 "directory dump (Spec/C19Spec.v).",
         "design_ref": "DESIGN.md §6 C19",
-        "note": "Partial: the line-limited search and search after a crash cut are evaluated on every generated history of the "
-                "model and the implementation, not proved for all histories (search by time on an intact directory is a theorem); each search uses a fresh searcher (the cached "
+        "note": "Partial: that every byte-prefix of the writer's output (with file creations and removals) is a torn directory in the "
+                "sense of the crash theorems is not proved; it is exercised by the crash cases of the correspondence run; each search uses a fresh searcher (the cached "
                 "index position is not exercised); a crash is emulated by truncating the files the last write appended to. "
                 "Trusted: Coq kernel + VM (closed under the global context); the harness's own directory listing and index "
                 "decoding; std::fs semantics after flush().",
@@ -394,7 +397,7 @@ def main():
 
 
 NA = {}
-HOOK_COMMITS = ["28ce0b4", "ef616a0", "1b90b9f", "34a6ecc", "960e001", "6201ed7", "7bc2941", "7883235", "f5572d6", "035b69f"]
+HOOK_COMMITS = ["28ce0b4", "ef616a0", "1b90b9f", "34a6ecc", "960e001", "6201ed7", "7bc2941", "7883235", "f5572d6", "035b69f", "6eb707d"]
 
 if __name__ == "__main__":
     main()
